@@ -12,6 +12,6 @@ if [ "$patch" != "-" ]; then
 fi
 cp "$V/KNOWN_FINDINGS.txt" "$E/"
 for id in "$@"; do
-  "$V/bin/vcheck" -property "$id" -tier "${TIER:-quick}" -repo "$W/r" -verif "$E" 2>&1 | sed "s#$W/r/##g" | grep -v '^KNOWN-FINDING' | cut -c1-${CUT:-420}
+  "${VCHECK:-$V/bin/vcheck}" -property "$id" -tier "${TIER:-quick}" -repo "$W/r" -verif "$E" 2>&1 | sed "s#$W/r/##g" | grep -v '^KNOWN-FINDING' | cut -c1-${CUT:-420}
 done
 git -C /repo worktree remove --force "$W/r"; rm -rf "$W" "$E"
